@@ -89,15 +89,29 @@ def run_case(ctx, i, rng):
             if ta['held']:
                 ctx.count('held_tasks_at_restart')
                 nontrivial = True
+            hp = sa['extras']['hold_point']
             if ta['held'] != tb['held']:
+                mech = ''
+                if hp is not None and not ta['held'] and tb['held'] and \
+                        int(ta['point']) > int(hp):
+                    # explicitly released although beyond the hold point;
+                    # the restart re-applies the hold point to the pool
+                    mech = ':released-beyond-hold-point'
                 ctx.violation(
-                    'C06:held-flag-not-restored',
+                    'C06:held-flag-not-restored' + mech,
                     f'{tid} held={ta["held"]} at stop, held={tb["held"]} '
                     'after restart', dict(detail, before=ta, after=tb))
         for fld in ('hold_point', 'tasks_to_hold'):
             if sa['extras'][fld] != sb['extras'][fld]:
+                mech = ''
+                hp = sa['extras']['hold_point']
+                if fld == 'tasks_to_hold' and hp is not None:
+                    a_, b_ = set(sa['extras'][fld]), set(sb['extras'][fld])
+                    if a_ <= b_ and all(int(x.split('/')[0]) > int(hp)
+                                        for x in b_ - a_):
+                        mech = ':released-beyond-hold-point'
                 ctx.violation(
-                    f'C06:{fld}-not-restored',
+                    f'C06:{fld}-not-restored' + mech,
                     f'{fld} {sa["extras"][fld]} at stop, '
                     f'{sb["extras"][fld]} after restart', detail)
             elif sa['extras'][fld]:
